@@ -14,7 +14,7 @@ package main
 // (out of memory, stack overflow) and hangs can be observed and reported
 // instead of taking the harness down.
 //
-// Environment knobs: C15_TIMEOUT_MS (per-input timeout, default 20000),
+// Environment knobs: C15_TIMEOUT_MS (per-input timeout, default 20000; a TIMEOUT is retried once with 6x),
 // C15_AS_LIMIT_MB (child RLIMIT_AS, default 12288; GOMEMLIMIT defaults to
 // 8 GiB, or 2/3 of C15_AS_LIMIT_MB when that is set), C15_SLOTS (number of
 // decodes that may run concurrently on the machine, default 1; see
@@ -614,6 +614,17 @@ func c15Hex(b []byte) string {
 
 // c15Replay is replayers["dec"]: args = <type> <hex>.
 func c15Replay(a []string) []string {
+	res := c15ReplayOnce(a, 1)
+	if len(res) == 1 && res[0] == "TIMEOUT" {
+		// A decode within the documented limits may touch 1.2 GB; on a loaded machine that alone can exceed
+		// the timeout.  A false alarm is worse than a slow run: retry once in a fresh child with 6x the
+		// timeout; a genuine hang times out again.
+		res = c15ReplayOnce(a, 6)
+	}
+	return res
+}
+
+func c15ReplayOnce(a []string, scale int) []string {
 	if len(a) != 2 {
 		return []string{"ERR-bad-args"}
 	}
@@ -630,7 +641,7 @@ func c15Replay(a []string) []string {
 		c15Cur = c
 	}
 	c := c15Cur
-	timeout := time.Duration(c15EnvInt("C15_TIMEOUT_MS", c15DefaultTimeoutMS)) * time.Millisecond
+	timeout := time.Duration(scale*c15EnvInt("C15_TIMEOUT_MS", c15DefaultTimeoutMS)) * time.Millisecond
 	if _, err := io.WriteString(c.stdin, a[0]+" "+a[1]+"\n"); err != nil {
 		c15Cur = nil
 		return []string{"FATAL:" + c.reap()}
@@ -1048,10 +1059,10 @@ func genC15(g *G) {
 	em := &c15Emitter{g: g, seen: map[string]bool{}, fam: map[string]int{}}
 	bases := c15Bases(rng)
 	total := 3 * g.n
-	heavyCap := 6
+	heavyCap := 2
 	if g.thorough {
 		total = 12 * g.n
-		heavyCap = 30
+		heavyCap = 12
 	}
 
 	// ---- mandatory, seed-independent part -------------------------------
@@ -1061,6 +1072,17 @@ func genC15(g *G) {
 		case "loop/zero", "polygon/unc-zero", "polygon/comp-zero", "polygon/comp-zero-l0", "polyline/n0", "cellunion/n0":
 			em.emit("e:count0", b.typ, b.data)
 		}
+	}
+	// f. non-finite vertex coordinates (known finding D21: accepted by the decoders, exact predicates panic later);
+	// emitted in every run so that the KNOWN-FINDING line is printed
+	for _, nf := range [][2]string{
+		{"loop", "0103000000000000000000f87f000000000000000000000000000000000000000000000000000000000000f03f000000000000000000000000000000000000000000000000000000000000f03f000000000001182d4454fb21f9bf182d4454fb21f93f182d4454fb2109c0182d4454fb210940"},
+		{"loop", "0103000000000000000000f07f000000000000000000000000000000000000000000000000000000000000f03f000000000000000000000000000000000000000000000000000000000000f03f000000000001182d4454fb21f9bf182d4454fb21f93f182d4454fb2109c0182d4454fb210940"},
+		{"polygon", "010100010000000103000000000000000000f87f000000000000000000000000000000000000000000000000000000000000f03f000000000000000000000000000000000000000000000000000000000000f03f000000000001182d4454fb21f9bf182d4454fb21f93f182d4454fb2109c0182d4454fb21094001182d4454fb21f9bf182d4454fb21f93f182d4454fb2109c0182d4454fb210940"},
+		{"polygon", "040001031200000100000000000000f87f000000000000000000000000000000000000"},
+	} {
+		d, _ := hex.DecodeString(nf[1])
+		em.emit("f:nonfinite", nf[0], d)
 	}
 	// unmodified bases (incl. the seed-dependent ones: they sit at the end and
 	// do not shift the indices of the deterministic ones)
